@@ -58,6 +58,18 @@ CHECKS = {
  "C20": ("seqmc", "exhaustive enumeration of ALL next/next_back step sequences per record, contracts checked after every step",
          "Every FASTA record with 0..4 (thorough 6) lines over a line menu: all 2^(m+2) front/back step sequences with len()/size_hint() after each step, adaptor menu after every (front, back) prefix; RecordSetIter / RecordsIter / RecordsIntoIter fused-ness incl. after errors.",
          "Iterator logic depends only on the number of lines.", "6 C20"),
+ "C07": ("parmc", "stateless preemption-bounded exhaustive schedule exploration (DFS, iterative context bounding) of the real parallel.rs on the shuttle runtime",
+         "Every schedule with <= P preemptions (all switches at blocking points) of read_parallel_init with a scripted reader and of parallel_fasta(_init)/parallel_fastq(_init) with the real readers, for threads {1,2} x queue {1,2(,3)} x 0..3(4) record sets; exactly-once, pairing of set and output, order inside sets, FIFO for one worker checked in every schedule.",
+         "shuttle's model of std threads/channels/mutex; crossbeam scope shimmed, scoped_threadpool's real source on shuttle primitives; P = 2(3) for 1 worker, 1 for 2 workers on the small box.", "5, 6 C07"),
+ "C08": ("parmc", "stateless preemption-bounded exhaustive schedule exploration with deadlock detection at every scheduling point",
+         "Same schedules for consumers {drain, stop after k for every k, never ask}, reader error at every set index, reader/data-set/record-data initialisers failing at each call, empty input: every schedule terminates (no enabled task with unfinished tasks = deadlock), the call returns, no fill/work event after the return.",
+         "Same as C07.", "5, 6 C08"),
+ "C15": ("parmc", "stateless preemption-bounded exhaustive schedule exploration with fault enumeration (reader error index, failing initialiser call, invalid record index)",
+         "Reader error at every set index x consumer {drain, stop at error}; each initialiser failing at each call; real readers with an invalid FASTA/FASTQ record at every index: error exactly once, nothing after it, earlier sets at most once, drain gets all earlier sets + end marker, init failures returned as Err, parse error equals the sequential one.",
+         "Same as C07.", "5, 6 C15"),
+ "C16": ("parmc", "stateless preemption-bounded exhaustive schedule exploration with an invariant evaluated at every logged event",
+         "Instrumented initialiser and tags in every schedule: creations <= queue+1, fills - received <= queue at every event, every data set seen by fill_data / worker is one of the created ones.",
+         "'however long the input' is explored for 0..3(4) sets and argued inductively beyond.", "5, 6 C16"),
 }
 
 NOT_YET = {}
